@@ -21,17 +21,24 @@ def generated_items(seed, tier, bias, scale=1.0):
     # operator / conversion cells (narrow and wide operands, comparison and logical results mixed with arithmetic)
     ops = gen.ops_matrix()
     casts = gen.cast_matrix()
-    k = 120 if tier == "quick" else len(ops)
+    k = int(120 * scale) if tier == "quick" else len(ops)
     for name, text in rng.sample(ops, k):
         items.append(dict(name="op:" + name, text=text))
-    k = 60 if tier == "quick" else len(casts)
+    k = int(60 * scale) if tier == "quick" else len(casts)
     for name, text in rng.sample(casts, k):
         items.append(dict(name="cv:" + name, text=text))
     calls = gen.cast_call_matrix()
-    for it in rng.sample(calls, 24 if tier == "quick" else len(calls)):
+    for it in rng.sample(calls, int(24 * scale) if tier == "quick" else len(calls)):
         it = dict(it)
         it["name"] = "call:" + it["name"]
         items.append(it)
+    if bias in ("own", "wf", "sorts"):
+        # every operand spelling (names with ':' and '_NEW', aliases, .new registers) in read, arithmetic, address and data position
+        from .checks import c07
+
+        sp = c07.spellings()
+        for it in (sp if tier == "thorough" else rng.sample(sp, int(140 * scale))):
+            items.append(dict(name="sp:" + it["name"], text=it["text"]))
     if bias in ("own", "wf"):
         # constant folding that discards operands (C11/C12 quantifier)
         for it in gen.fold_programs(random.Random(seed), 12):
